@@ -153,6 +153,49 @@ def symbolic_json(rep: report.Report) -> None:
     rep.merge_stats(queries=P.asked, solver_s=P.solver_s)
 
 
+def symbolic_quantity_json(rep: report.Report) -> None:
+    """Quantity.__json__ / __from_json__ on a symbolic int / float magnitude: the magnitude must
+    pass through untouched on every path (any branch on the value would show up as a fork)."""
+    import measured
+    from measured import Quantity
+
+    for kind in ("int", "float"):
+        mv = symnum.var(kind, "m")
+
+        def fn() -> Any:
+            q = Quantity(symnum.mk(kind, mv), measured.Unit._by_name["meter"])
+            doc = q.__json__()
+            back = Quantity.__from_json__(dict(doc))
+            return doc["magnitude"], back.magnitude, back.unit
+
+        try:
+            with symnum.Shims():
+                ex = explore(fn, max_paths=16)
+        except symnum.NotEncodable as e:
+            # an int / float magnitude is being rendered to text (or hashed) on some path: the JSON
+            # form no longer carries it as a number for every value
+            rep.ob("sat", f"Quantity JSON: a {kind} magnitude passes through unchanged for every value",
+                   ("qjson", kind))
+            rep.violation(f"C15:quantity:json:{kind}-magnitude-depends-on-value",
+                          f"Quantity.__json__ converts some {kind} magnitudes ({e})", transport_replay("Quantity"))
+            continue
+        rep.merge_stats(queries=ex.queries, solver_s=ex.solver_s, paths=len(ex.paths))
+        ok = len(ex.paths) == 1 and ex.paths[0].exc is None and symnum.is_sym(ex.paths[0].result[0]) and \
+            symnum.kind_of(ex.paths[0].result[1]) == kind and \
+            ex.paths[0].result[2] is measured.Unit._by_name["meter"]
+        if ok:
+            P = symnum.Prover()
+            st, _ = P.check(ex.paths[0].cond, symnum.real(ex.paths[0].result[1].t) != symnum.real(mv))
+            ok = st == "unsat"
+        rep.ob("unsat" if ok else "sat", f"Quantity JSON: a {kind} magnitude passes through unchanged for "
+               "every value (single path, same term, same kind)", ("qjson", kind))
+        if not ok:
+            detail = [(p.outcome, [str(c) for c in p.pc][:2]) for p in ex.paths[:4]]
+            rep.violation(f"C15:quantity:json:{kind}-magnitude-depends-on-value",
+                          f"Quantity.__json__/__from_json__ treats some {kind} magnitudes differently: {detail}",
+                          transport_replay("Quantity"))
+
+
 def transport_replay(kind: str) -> str:
     return families.REPLAY_IMPORTS + """import pickle, copy, json
 from decimal import Decimal
@@ -173,7 +216,7 @@ for o in objs:
             bad.append((label, repr(o), type(e).__name__)); continue
         if r is not o or names != (getattr(o, 'names', None), getattr(o, 'symbols', None), getattr(o, 'name', None)):
             bad.append((label, repr(o)))
-for m in (5, 5.5, Decimal('5.25')):
+for m in (5, 5.5, Decimal('5.25'), 2 ** 53 + 1, -(2 ** 70), 10 ** 30, 1e21, -0.1):
     q = m * (Kilo * Meter / Second)
     for label, f in (('pickle', lambda x: pickle.loads(pickle.dumps(x))), ('deepcopy', copy.deepcopy),
                      ('json', lambda x: json.loads(json.dumps(x, cls=MeasuredJSONEncoder), cls=MeasuredJSONDecoder))):
@@ -233,7 +276,8 @@ def transports_worker(task: Tuple) -> Dict[str, Any]:
             elif now != state:
                 out["bad"].append((kind, tname, label, f"names/symbols changed {state} -> {now}"))
         if kind in ("unit", "compound"):
-            for m in (5, 5.5, Decimal("5.25"), -3, 0):
+            for m in (5, 5.5, Decimal("5.25"), -3, 0, 2 ** 53 + 1, -(2 ** 70), 1e21,
+                      Decimal("1E+40"), 0.1):
                 q = m * o
                 for tname, f in transports:
                     out["n"] += 1
@@ -268,6 +312,7 @@ def main(tier: str, selftest_cases: int = 0) -> int:
 
     symbolic_newargs(rep)
     symbolic_json(rep)
+    symbolic_quantity_json(rep)
     names = sorted(measured.Unit._by_name)
     comp = [(p, u, e) for p in (None, "kilo", "milli", "kibi", "micro")
             for u in [x.name for x in families.core_units()][: (12 if tier == "quick" else 33)]
